@@ -5,6 +5,10 @@ set -u
 . "$(dirname "${BASH_SOURCE[0]}")/env.sh"
 cd "$VERIF_ROOT/mc" || exit 3
 cp "$REPO/go.sum" "$VERIF_ROOT/mc/go.sum" 2>/dev/null
+# (background runs on a snapshot may point at their own copy of the repository)
+if [ "$REPO" != "/repo" ]; then
+  sed -i "s|^replace github.com/lidofinance/dc4bc => .*|replace github.com/lidofinance/dc4bc => $REPO|" "$VERIF_ROOT/mc/go.mod"
+fi
 (
   flock 9
   go run ./gen -repo "$REPO" -verif "$VERIF_ROOT" -out "$BUILD/ov" >"$BUILD/gen.log" 2>&1 || { cat "$BUILD/gen.log" >&2; exit 3; }
